@@ -16,7 +16,9 @@ AUTH_RESET = dict(name="Reset", kind="none", auth="none", pay="none", old="none"
 # the authority is identified by the account it decodes to: the upper-case bech32 spelling of the gov address decodes to
 # the governance module account and therefore IS the governance authority (x/evm CallContract accepts it, the other
 # handlers refuse it; neither contradicts the property) - it is not an authority class here (lead decision).
-AUTH_CLASSES = ["gov", "othermodule", "user", "empty", "gov-hex", "gov-otherprefix"]
+# gov-suffix-21 / gov-suffix-32 / gov-prefix-32: valid bech32 (chain prefix) of LONGER addresses that contain the 20 gov
+# bytes at the end / at the start - different accounts, must be rejected by every kind.
+AUTH_CLASSES = ["gov", "othermodule", "user", "empty", "gov-hex", "gov-otherprefix", "gov-suffix-21", "gov-suffix-32", "gov-prefix-32"]
 
 AUTH_FORMULAS = {
     "C16": dict(invariants=["C16_RejectedLeavesNoTrace"],
@@ -52,6 +54,7 @@ def authority(pid):
         routable = sorted(k["kind"] for k in kinds if k["routable"])
         store = sorted(k["kind"] for k in kinds if k["store"])
         reject_only = sorted(k["kind"] for k in kinds if k["routable"] and not k["has_gen"])
+        reset = sorted(k["kind"] for k in kinds if k.get("reset"))
         log("discovered %d privileged message kinds (%d fx-core with generators, %d without a handler, %d third-party reject-only):"
             % (len(names), len([k for k in kinds if k["fxcore"] and k["routable"]]), len(names) - len(routable), len(reject_only)))
         for k in kinds:
@@ -59,7 +62,7 @@ def authority(pid):
                               "  [third-party: other-authority half only]" if k["kind"] in reject_only else ""))
 
         def consts(maxapplied):
-            return dict(Kind=names, Routable=routable, StoreKind=store, RejectOnly=reject_only, Auth=AUTH_CLASSES, MaxApplied=maxapplied)
+            return dict(Kind=names, Routable=routable, StoreKind=store, RejectOnly=reject_only, ResetKind=reset, Auth=AUTH_CLASSES, MaxApplied=maxapplied)
 
         def gen(name, tiers, maxapplied, shards, rej):
             return dict(name=name, tiers=tiers, consts=consts(maxapplied), harness=[dict(chain="app", MaxApplied=maxapplied, Kind=names)],
@@ -82,7 +85,8 @@ def authority(pid):
             assumptions=[
                 "privileged kinds discovered at run time from the application's interface registry (cosmos.msg.v1.signer = authority) and crosschain router: " + ", ".join(names),
                 "messages are routed through the application's MsgServiceRouter with ValidateBasic and per-message atomicity (world.Handle), as baseapp does; the complete multistore dump is compared before/after every operation the property says must have no effect",
-                "authority classes: gov module account (canonical lower-case bech32); distribution module account; a user; empty; the gov address as 0x hex; the gov address bytes with bech32 prefix cosmos. Authority identity is the decoded account: the upper-case bech32 spelling of the gov address (accepted by x/evm CallContract via strings.EqualFold, refused by the other handlers) decodes to the governance account and is not treated as a foreign authority",
+                "authority classes: gov module account (canonical lower-case bech32); distribution module account; a user; empty; the gov address as 0x hex; the gov address bytes with bech32 prefix cosmos; valid chain-prefix bech32 of 21- and 32-byte addresses that end / start with the 20 gov bytes (other accounts). Authority identity is the decoded account: the upper-case bech32 spelling of the gov address (accepted by x/evm CallContract via strings.EqualFold, refused by the other handlers) decodes to the governance account and is not treated as a foreign authority",
+                "payload class 'reset' (kinds with a delete/reset form: " + ", ".join(reset) + "): zero-value custom params / removal of a registered alias / removal of a disabled-precompile entry / overwrite of an existing raw store value, each against a target that exists so the form would take effect",
                 "payload classes: one valid and one invalid payload per kind (invalid = stateless validation failure or handler-level failure, for MsgUpdateStore an unknown store space in the SECOND entry)",
                 "third-party kinds (cosmos-sdk, ibc, ethermint) are driven with non-governance authorities only (no payload generator): " + ", ".join(reject_only),
                 "kinds registered in the interface registry without a handler on the router (legacy fx gov messages) must be rejected for every authority",
@@ -96,6 +100,6 @@ specs.REGISTRY["C16"] = authority("C16")
 
 specs.MANIFEST.update({
  "C16": dict(category="model_checking", technique="TLA+ spec Authority.tla with the set of privileged message kinds discovered from the running application; TLC model check + replay of every (kind, authority class, payload class) on the real message router with a byte-exact multistore dump comparison + TLC evaluation of the C16 formulas on recorded real behaviours",
-             text="Authority.tla: a privileged message takes effect iff its authority is the governance module account and its payload is valid (raw store update: and all stated old values match); otherwise it is rejected and nothing changes. The kinds are every registered message whose descriptor names `authority` as signer (16 crosschain kinds over 8 chain modules, erc20 x5, evm, gov x3, legacy gov x3 without handler, plus 17 third-party kinds driven with foreign authorities only). Each kind x 6 authority classes (incl. hex / foreign-prefix encodings of the gov address) x valid/invalid payload (x3 old-value classes for the store update) is executed through the real router in the initial state and after every single applied operation; effects are projected from kind-specific observables, and for every case that must not take effect the full multistore dump must be byte-identical.",
+             text="Authority.tla: a privileged message takes effect iff its authority is the governance module account and its payload is valid (raw store update: and all stated old values match); otherwise it is rejected and nothing changes. The kinds are every registered message whose descriptor names `authority` as signer (16 crosschain kinds over 8 chain modules, erc20 x5, evm, gov x3, legacy gov x3 without handler, plus 17 third-party kinds driven with foreign authorities only). Each kind x 9 authority classes (incl. hex / foreign-prefix encodings of the gov address and longer addresses containing the gov bytes) x valid/invalid payload (plus the delete/reset form of the four kinds that have one, against existing targets; x3 old-value classes for the store update) is executed through the real router in the initial state and after every single applied operation; effects are projected from kind-specific observables, and for every case that must not take effect the full multistore dump must be byte-identical.",
              note="one valid and one invalid payload per kind, not arbitrary payloads; third-party kinds only for the rejection half; messages via the router without signatures; trusted: TLC, the per-kind observables, the dump comparison", ref="5 (C16)"),
 })
